@@ -207,14 +207,27 @@ pub fn run_sequence(n: usize, seq: &[(usize, Cmd)], w: Waits, blocked_observatio
         }
         m.issue(t, c);
         let _ = real.txs[t].send(Msg::Do(c));
+        // completions that arrive while the acknowledgement of a release is awaited (a call the release unblocked may
+        // report before the releasing thread does)
+        let mut early: Vec<usize> = Vec::new();
         if c == Cmd::Release {
             // a release never blocks
-            match real.done.recv_timeout(w.pos) {
-                Ok(x) if x == t => real_holds[t] = false,
-                other => {
-                    outcome = Some(Outcome::Discrepancy(format!("step {}: release by thread {} not acknowledged ({:?})", i, t, other.ok())));
-                    break;
+            let mut acked = false;
+            let t_ack = std::time::Instant::now();
+            while t_ack.elapsed() < w.pos {
+                match real.done.recv_timeout(w.pos) {
+                    Ok(x) if x == t && !real_pending.contains(&t) => {
+                        acked = true;
+                        real_holds[t] = false;
+                        break;
+                    }
+                    Ok(x) => early.push(x),
+                    Err(_) => break,
                 }
+            }
+            if !acked {
+                outcome = Some(Outcome::Discrepancy(format!("step {}: release by thread {} not acknowledged", i, t)));
+                break;
             }
         } else {
             real_pending.insert(t);
@@ -232,7 +245,8 @@ pub fn run_sequence(n: usize, seq: &[(usize, Cmd)], w: Waits, blocked_observatio
                     continue;
                 }
             }
-            match real.done.recv_timeout(if cand.is_empty() { w.neg } else { w.pos }) {
+            let next = if early.is_empty() { real.done.recv_timeout(if cand.is_empty() { w.neg } else { w.pos }).map_err(|_| ()) } else { Ok(early.remove(0)) };
+            match next {
                 Ok(x) => {
                     if !m.can_complete(x) {
                         outcome = Some(Outcome::Discrepancy(format!("after step {} {:?}: the real {:?} of thread {} returned, the model blocks it (model {:?})", i, (t, c), m.th[x].pending, x, m)));
